@@ -5,6 +5,7 @@ import (
 	"context"
 	"fmt"
 	"io"
+	"os"
 	"strings"
 	"sync"
 	"time"
@@ -38,6 +39,35 @@ const (
 	HungPeer  = peer.ID("peerHung")
 	GhostPeer = peer.ID("peerGhost")
 )
+
+// waitReleased blocks until Release (controlled: a blocking point; free-running: the channel).
+func (n *FakeNet) waitReleased(label string) {
+	if vsched.Active() {
+		vsched.Block(label, func() bool {
+			n.mu.Lock()
+			defer n.mu.Unlock()
+			return n.released
+		})
+		return
+	}
+	<-n.relCh
+}
+
+// waitSent blocks until k requests have been handed to the network.
+func (n *FakeNet) waitSent(k int) {
+	pred := func() bool {
+		n.mu.Lock()
+		defer n.mu.Unlock()
+		return n.reqCount >= k
+	}
+	if vsched.Active() {
+		vsched.Block("all-requests-sent", pred)
+		return
+	}
+	for !pred() {
+		time.Sleep(time.Millisecond)
+	}
+}
 
 func (n *FakeNet) Release() {
 	n.mu.Lock()
@@ -205,6 +235,7 @@ type P2PScenario struct {
 	Timeouts   int  // how many timeout timers may fire in one execution
 	Ghost      bool // one more request goes to a peer the network does not know (the send fails)
 	Hung       bool // one more request goes to a peer whose stream open hangs until all other requests returned
+	CancelLate bool // the responder is slow and the canceller waits until every request has been sent: all requesters are cancelled while waiting
 }
 
 // Body runs the scenario once and reports violations through vsched.Fail.
@@ -213,7 +244,11 @@ func (sc P2PScenario) Body(timeout time.Duration) func() {
 		net := NewFakeNet()
 		net.DupRes = sc.DupRes
 		a := net.AddNode("peerA", timeout, map[string]p2p.RPCHandler{"echo": EchoHandler})
-		net.AddNode("peerB", timeout, map[string]p2p.RPCHandler{"echo": EchoHandler})
+		responder := p2p.RPCHandler(EchoHandler)
+		if sc.CancelLate {
+			responder = func(w p2p.ResponseWriter, r *p2p.Request) { net.waitReleased("slow-handler"); EchoHandler(w, r) }
+		}
+		net.AddNode("peerB", timeout, map[string]p2p.RPCHandler{"echo": responder})
 		vsched.TimerHook = func() { net.note("timer") }
 		vsched.TimerBudget = sc.Timeouts
 		ctx, cancel := vsched.WithCancel(context.Background())
@@ -237,7 +272,12 @@ func (sc P2PScenario) Body(timeout time.Duration) func() {
 			})
 		}
 		if sc.Cancel {
-			g.Go("canceller", func() { cancel() })
+			g.Go("canceller", func() {
+				if sc.CancelLate {
+					net.waitSent(sc.Requesters)
+				}
+				cancel()
+			})
 		}
 		extra := ""
 		var gx vsched.Group
@@ -265,6 +305,9 @@ func (sc P2PScenario) Body(timeout time.Duration) func() {
 			vsched.Fail(extra)
 		}
 		net.inflight.Wait()
+		if os.Getenv("C17_DEBUG") != "" {
+			fmt.Fprintln(os.Stderr, "C17_DEBUG", sc.Name, results, net.Log)
+		}
 		for i, r := range results {
 			if strings.HasPrefix(r, "WRONG") {
 				vsched.Fail(fmt.Sprintf("request %d received the response of another request: %s", i, r))
@@ -330,6 +373,7 @@ func P2PScenarios(maxTimeouts int) []P2PScenario {
 		{Name: "duplicate-responses", Requesters: 1, DupRes: true},
 		{Name: "cancelled-request", Requesters: 1, Cancel: true},
 		{Name: "two-requests-duplicate-responses", Requesters: 2, DupRes: true},
+		{Name: "two-requests-cancelled-while-waiting", Requesters: 2, Cancel: true, CancelLate: true},
 		{Name: "request-with-failing-send", Requesters: 1, Ghost: true},
 		{Name: "request-beside-hung-send", Requesters: 1, Hung: true},
 	}
